@@ -85,7 +85,7 @@ def _group_keys(prefix, fails, universe):
         u = universe.get(g[:2], {})
         parts = ["%s=%s" % (k, "+".join(str(v) for v in sorted(d[k], key=str)))
                  for k in _FEATS if d[k] != u.get(k, d[k])]
-        if any(str(x).startswith("deviation=") for x in g):
+        if any(str(x).startswith("deviation=") or x == "history-dependent" for x in g):
             parts = []          # a wrong rule the spec knows by name: the name is the class
         keys[g] = "|".join([prefix] + [str(x) for x in g] + parts)
     return keys
@@ -267,6 +267,128 @@ def _fmt(x):
     if x[0] == "digest":
         return "%064x" % x[1]
     return ":".join(str(y) for y in x)
+
+
+# ------------------------------------------------------------------ histories (spec -> code, long-lived objects)
+
+def _hist_tx(tab, coin):
+    tx = drv.mk_tx(coin, tab["ver"], tab["ins"], tab["outs"], tab["lock"], 0, 0, witness=True)
+    Tx = drv.network(coin).tx
+    tx.unspents = [Tx.TxOut(int.from_bytes(bytes(a), "little"), b"\x51" * (j + 1)) for j, a in enumerate(tab["amts"])]
+    return tx
+
+
+def _hist_args(tab, r):
+    S = tab["scripts"][r["s"] - 1]
+    return (r["sv"], r["i"] - 1, bytes(S["script"]), S["sep"] if r["b"] == 1 else 0,
+            [bytes(x) for x in tab["sigsets"][r["g"] - 1]], r["ht"])
+
+
+def _run_history(tab, rec):
+    """one printed history on ONE transaction / checker / closure set, then each request on
+    fresh objects.  Returns None or a failure dict (first failing step)."""
+    coin = rec["coin"]
+    tx = _hist_tx(tab, coin)
+    before = drv.project(tx)
+    session = drv.Session(tx)
+    for k, (r, d) in enumerate(zip(rec["reqs"], rec["exp"])):
+        exp = drv.expected(d)
+        args = _hist_args(tab, r)
+        o = session.ask(*args)
+        bad = drv.judge(exp, [("long-lived closure", o)])
+        modified = drv.project(tx) != before
+        ftx = _hist_tx(tab, coin)
+        fo = drv.Session(ftx).ask(*args)
+        fbad = drv.judge(exp, [("fresh closure", fo)])
+        if bad or modified or fbad:
+            if modified:
+                what = "tx-modified"
+            elif bad and not fbad:
+                what = "history-dependent"        # right on fresh objects, wrong after the earlier requests
+            else:
+                what = (fbad or bad)[0]
+            return {"coin": coin, "sv": r["sv"], "what": what, "step": k + 1, "history": rec["reqs"][:k + 1],
+                    "expected": exp, "long_lived": o, "fresh": fo,
+                    "tx": drv.tx_json(ftx), "request": drv.request_json(coin, *args),
+                    "earlier_requests": [drv.request_json(coin, *_hist_args(tab, q)) for q in rec["reqs"][:k]]}
+    return None
+
+
+def _history_chunk(args):
+    tab, recs = args
+    out = []
+    for rec in recs:
+        f = _run_history(tab, rec)
+        if f is not None:
+            out.append(f)
+    return len(recs), out
+
+
+class HistoryReplayer(Replayer):
+    def feed(self, rec):
+        if rec.get("k") == "tab":
+            self.tab = rec
+            early, self.early = self.early, []
+            for r in early:
+                self.feed(r)
+            return
+        if rec.get("k") != "hist":
+            return
+        if self.tab is None:
+            self.early.append(rec)
+            return
+        self.n += 1
+        if len(self.cands) < 40 and self.n % 499 == 1:
+            self.cands.append(rec)
+        self.classes.add((rec["coin"], tuple((r["sv"], r["b"], r["g"]) for r in rec["reqs"])))
+        self.buf.append(rec)
+        if len(self.buf) >= 200:
+            self._flush()
+
+    def _flush(self):
+        if self.buf:
+            self.pending.append(self.pool.apply_async(_history_chunk, ((self.tab, self.buf),)))
+            self.buf = []
+        while len(self.pending) > 6 * NPROC:
+            self._collect(self.pending.pop(0))
+
+
+def stage_history(ctx):
+    """sequences of requests on one closure / one checker / one transaction object"""
+    total = 0
+    for cfg in (("MC_SighashHistory_q", "MC_SighashHistory_q3") if ctx.quick else
+                ("MC_SighashHistory_t", "MC_SighashHistory_t3")):
+        rp = HistoryReplayer(ctx)
+        ctx.tlc("MC_SighashHistory", cfg, on_record=rp.feed, keep_records=False, timeout=3000)
+        fails = rp.finish()
+        if rp.n == 0:
+            raise MachineryError("%s printed no history" % cfg)
+        nreq = rp.n * len(rp.cands[0]["reqs"])
+        ctx.log("replayed %d histories (%d requests, each also on fresh objects) of %s on pycoin: %d disagree" % (
+            rp.n, nreq, cfg, len(fails)))
+        ctx.replayed += rp.n
+        ctx.case(None, 2 * nreq)
+        ctx.action("history." + cfg, rp.n)
+        for k in rp.classes:
+            ctx.case(("history",) + k, 0)
+        total += rp.n
+        for f in fails:
+            ctx.fail("C04|history|%s|%s|%s" % (f["coin"], f["sv"], f["what"]),
+                     "%s/%s request %d of a history on one SolutionChecker/closure: %s: spec demands %s, the long-lived closure gave %s, "
+                     "a fresh one %s (history: %s)" % (f["coin"], f["sv"], f["step"], f["what"], _fmt(f["expected"]),
+                                                      _fmt(f["long_lived"]), _fmt(f["fresh"]), f["history"]), f)
+        if cfg.endswith("_q") or cfg.endswith("_t"):
+            ctx.sample({"history": {"coin": rp.cands[0]["coin"], "reqs": rp.cands[0]["reqs"]}})
+            passing = [c for c in rp.cands if _run_history(rp.tab, c) is None][:1]
+            if passing:
+                rec = copy.deepcopy(passing[0])
+                lit = [c for c in rec["exp"][-1][0]["x"] if c["k"] == "b"][-1]
+                lit["v"][0] ^= 1
+                f = _run_history(rp.tab, rec)
+                ctx.selftest("history_rejects_corrupted_expectation", f is not None and f["step"] == len(rec["reqs"]))
+            elif not fails:
+                raise MachineryError("no history available for the binding self-test")
+    return total
 
 
 # ------------------------------------------------------------------ TLC as a function: requests -> digest blobs
@@ -528,7 +650,25 @@ def record_traces(seed, count, big_every=25):
             i = rnd.randrange(nin)
             if rnd.random() < 0.25 and nin > nout:
                 i, ht = rnd.randrange(nout, nin), (ht & 0xE0) | 3          # SIGHASH_SINGLE without an output
-            reqs.append((rnd.choice(svs), i, script, begin, sigs, ht))
+            sv = rnd.choice(svs)
+            reqs.append((sv, i, script, begin, sigs, ht))
+            # HISTORY: the next signature check of the same script evaluation - same closure, same
+            # script, same hash type, but other signatures to remove (some occur in the script, some
+            # do not) or another code-separator offset
+            while not huge and rnd.random() < 0.45:
+                q = rnd.random()
+                if q < 0.3:
+                    sigs2, begin2 = [_rand_sig(rnd)], begin                      # occurs nowhere
+                elif q < 0.55:
+                    sigs2, begin2 = sigs[:rnd.randrange(len(sigs) + 1)], begin   # a prefix (possibly none)
+                elif q < 0.75:
+                    sigs2, begin2 = sigs[::-1] + [_rand_sig(rnd)], begin
+                elif q < 0.88:
+                    sigs2, begin2 = sigs, (rnd.choice(seps) if seps else 0)
+                else:
+                    sigs2, begin2, i = sigs, begin, rnd.randrange(nin)           # the same check for another input
+                reqs.append((sv, i, script, begin2, sigs2, ht if rnd.random() < 0.8 else rnd.choice(_STD_HT)))
+                sigs, begin = sigs2, begin2
         before = drv.tx_json(tx)
         pbefore = drv.project(tx)
         evs = drv.run_trace(coin, tx, reqs)
@@ -584,6 +724,11 @@ def _trace_diagnosis(t, info):
             for name, d in devs:
                 if got == d:
                     return (r["coin"], r["sv"], "deviation=" + name), e
+            # the same request on fresh objects: right there means the long-lived closure remembered
+            ftx = drv.tx_from_json(r["coin"], t["tx"])
+            fo = drv.Session(ftx).ask(r["sv"], r["i"] - 1, bytes(r["script"]), r["begin"], [bytes(x) for x in r["sigs"]], r["ht"])
+            if fo == ("digest", int.from_bytes(exp, "big")):
+                return (r["coin"], r["sv"], "history-dependent"), e
             return (r["coin"], r["sv"], "raised" if e["raised"] else "digest"), e
     for e, (exp, devs) in zip(t["ev"], info):
         if exp is None and not e["raised"] and e["r"]["sv"] == "base":
@@ -592,7 +737,7 @@ def _trace_diagnosis(t, info):
 
 
 def stage_traces(ctx):
-    ntr = 150 if ctx.quick else 800
+    ntr = 150 if ctx.quick else 600
     traces = record_traces(ctx.seed * 7919 + 4, ntr)
     nev = sum(len(t["ev"]) for t in traces)
     ctx.log("recorded %d traces (%d sighash requests) on random transactions" % (len(traces), nev))
@@ -658,6 +803,10 @@ def stage_model(ctx):
     # the lemmas must reject mis-transcribed rules
     r1 = ctx.tlc("MC_Sighash", "MC_Sighash_bad1", expect_ok=False, count=False, workers=4)
     ctx.selftest("model_rejects_unblanked_hashSequence", (not r1.ok) and r1.violated == "CommitmentLemma")
+    # a memo that forgets the removed signatures / the code-separator offset breaks history independence
+    for bad in ("badNoSigs", "badNoBegin"):
+        rb = ctx.tlc("MC_SighashHistory", "MC_SighashHistory_" + bad, expect_ok=False, count=False, workers=2)
+        ctx.selftest("model_rejects_memo_" + bad[3:], (not rb.ok) and rb.violated == "HistoryIndependent")
     r2 = ctx.tlc("MC_Sighash", "MC_Sighash_bad2", expect_ok=False, count=False, workers=4)
     ctx.selftest("model_rejects_mask_0x03", (not r2.ok) and r2.violated in ("MaskLemma", "TwoFormsLemma"))
 
@@ -716,6 +865,8 @@ def run(ctx):
         stage_vectors(ctx)
     if want("replay"):
         stage_replay(ctx)
+    if want("history"):
+        stage_history(ctx)
     if want("traces"):
         stage_traces(ctx)
     ctx.exhaustive = True
